@@ -113,8 +113,12 @@ func batchRecords(v *View, ctxID string, counter uint64) (reqs []string, resps [
 func (oracleC12) Invariant(x *OCtx, v *View, m *Mon) []Violation {
 	var out []Violation
 	for _, id := range v.CtxIDs {
-		if _, inFlight := v.ExpH[id]; !inFlight {
+		if h, inFlight := v.ExpH[id]; !inFlight {
 			continue
+		} else if h < v.H && stName2(v.Ctxs[id].BatchState) != "completed" {
+			// its expiry block lies behind us and the batch was never completed (nor reported)
+			out = append(out, viol("C12", "batch-completed-when-expiry-block-ends", "state", x.Sc.ctxName(id)+"/expiry-in-the-past",
+				fmt.Sprintf("batch %d of %s is still running at height %d, its expiry block was %d", v.Ctxs[id].BatchCounter, x.Sc.ctxName(id), v.H, h)))
 		}
 		c := v.Ctxs[id]
 		name := x.Sc.ctxName(id)
